@@ -90,6 +90,28 @@ def _vars_of(t, acc):
     return acc
 
 
+LEMMA_SYMS = {}
+
+
+def _syms_of(t, acc):
+    """names of the uninterpreted function symbols (arity >= 1) and uninterpreted-sort constants' declarations in t"""
+    seen = set()
+    stack = [t]
+    while stack:
+        u = stack.pop()
+        if u.get_id() in seen:
+            continue
+        seen.add(u.get_id())
+        if z3.is_app(u):
+            d = u.decl()
+            if d.kind() == z3.Z3_OP_UNINTERPRETED and d.arity() >= 1:
+                acc.add(d.name())
+            stack.extend(u.children())
+        elif z3.is_quantifier(u):
+            stack.append(u.body())
+    return acc
+
+
 def lemma(name, vars_, body, pats, prov):
     """pats: alternatives (each covering all variables); a list whose members do not each cover all variables is taken
     as ONE multi-pattern."""
@@ -105,6 +127,14 @@ def lemma(name, vars_, body, pats, prov):
             zp.append(pt)
     fm = z3.ForAll(list(vars_), body, patterns=zp, qid=name)
     LEMMAS.append((name, fm, prov, 'extra' if name in EXTRA_NAMES else _GROUP[0]))
+    alts = []
+    for pt in pats:
+        terms = pt if isinstance(pt, (list, tuple)) else [pt]
+        sy = set()
+        for t in terms:
+            _syms_of(t, sy)
+        alts.append(frozenset(sy))
+    LEMMA_SYMS[name] = (alts, frozenset(_syms_of(body, set())))
     return fm
 
 
@@ -239,7 +269,7 @@ lemma("cj_permm", [p], cj(permm(p)) == permm(p), [cj(permm(p))], "0/1 entries")
 lemma("pinv_pinv", [p], pinvp(pinvp(p)) == p, [pinvp(pinvp(p))], ML + "inv_inv")
 lemma("isreal_cj", [a], z3.Implies(isreal(a), cj(a) == a), [cj(a)], "definition of isreal")
 lemma("herm_def", [a], z3.Implies(herm(a), z3.And(cj(tr(a)) == a, sq(a))), [herm(a)], ML + "Matrix.IsHermitian")
-lemma("herm_tr", [a], z3.Implies(herm(a), tr(a) == cj(a)), [herm(a), tr(a)], "from IsHermitian: A^T = conj(A)")
+lemma("herm_tr", [a], z3.Implies(herm(a), tr(a) == cj(a)), [[herm(a), tr(a)]], "from IsHermitian: A^T = conj(A)")
 lemma("psd_herm", [a], z3.Implies(psd(a), herm(a)), [psd(a)], ML + "Matrix.PosSemidef.isHermitian")
 lemma("unit_def", [a], z3.Implies(unit(a), z3.And(sq(a), invok(a), minv(a) == cj(tr(a)), stief(a))), [unit(a)], ML + "Matrix.mem_unitaryGroup_iff")
 lemma("stief_def", [a], z3.Implies(stief(a), mmul(cj(tr(a)), a) == eye(cols(a))), [stief(a)], "definition: A^H A = I")
@@ -270,10 +300,12 @@ lemma("invok_smul", [x, y, a], z3.Implies(z3.And(invok(smul(x, y, a)), rows(a) >
 lemma("inv_diagm", [a], z3.Implies(vnz(a), minv(diagm(a)) == diagm(vrecip(a))), [minv(diagm(a))], ML + "Matrix.inv_diagonal")
 lemma("invok_diagm", [a], invok(diagm(a)) == vnz(a), [invok(diagm(a))], ML + "Matrix.isUnit_diagonal")
 lemma("inv_inv", [a], z3.Implies(invok(a), minv(minv(a)) == a), [minv(minv(a))], ML + "Matrix.nonsing_inv_nonsing_inv")
-lemma("invok_inv", [a], z3.Implies(invok(a), invok(minv(a))), [invok(a), minv(a)], ML + "Matrix.isUnit_nonsing_inv_det")
+lemma("invok_inv", [a], z3.Implies(invok(a), invok(minv(a))), [[invok(a), minv(a)]], ML + "Matrix.isUnit_nonsing_inv_det")
 lemma("inv_permm", [p], z3.And(minv(permm(p)) == permm(pinvp(p)), invok(permm(p)), unit(permm(p))), [permm(p)], ML + "Equiv.Perm.permMatrix_inv")
 lemma("invok_tr", [a], invok(tr(a)) == invok(a), [invok(tr(a))], ML + "Matrix.isUnit_det_transpose")
 lemma("invok_cj", [a], invok(cj(a)) == invok(a), [invok(cj(a))], ML + "det_conjTranspose")
+lemma("inv_cancel_l", [a, b], z3.Implies(z3.And(invok(a), rows(b) == cols(a)), mmul(a, mmul(minv(a), b)) == b), [mmul(a, mmul(minv(a), b))], ML + "Matrix.mul_nonsing_inv_cancel_left")
+lemma("inv_cancel_l2", [a, b], z3.Implies(z3.And(invok(a), rows(b) == cols(a)), mmul(minv(a), mmul(a, b)) == b), [mmul(minv(a), mmul(a, b))], ML + "Matrix.nonsing_inv_mul_cancel_left")
 lemma("invok_sq", [a], z3.Implies(invok(a), sq(a)), [invok(a)], "invertible matrices are square")
 lemma("inv_mul_cancel", [a], z3.Implies(invok(a), z3.And(mmul(minv(a), a) == eye(cols(a)), mmul(a, minv(a)) == eye(rows(a)))),
       [minv(a)], ML + "Matrix.nonsing_inv_mul / mul_nonsing_inv")
@@ -426,7 +458,7 @@ lemma("fnm_sim", [f, a, b], z3.Implies(z3.And(invok(a), rows(b) == rows(a)),
       [fnm(f, mmul(a, mmul(diagm(b), minv(a))))], AS + "definition of a primary matrix function on a diagonalisable matrix: f(V D V^-1) = V f(D) V^-1 (Higham, Functions of Matrices, Def. 1.2)")
 lemma("sqrt_mul", [a], z3.Implies(sq(a), mmul(fnm(f_pow(HALF), a), fnm(f_pow(HALF), a)) == a), [fnm(f_pow(HALF), a)],
       AS + "principal square root: sqrt(A) sqrt(A) = A (Higham, Functions of Matrices, Thm 1.29)")
-lemma("psd_sqrt", [a], z3.Implies(psd(a), psd(fnm(f_pow(HALF), a))), [psd(a), fnm(f_pow(HALF), a)], AS + "the principal square root of a PSD matrix is PSD (Horn & Johnson, Thm 7.2.6)")
+lemma("psd_sqrt", [a], z3.Implies(psd(a), psd(fnm(f_pow(HALF), a))), [[psd(a), fnm(f_pow(HALF), a)]], AS + "the principal square root of a PSD matrix is PSD (Horn & Johnson, Thm 7.2.6)")
 lemma("exp_ksum", [a, b], z3.Implies(z3.And(sq(a), sq(b)), fnm(f_exp, ksum(a, b)) == kron(fnm(f_exp, a), fnm(f_exp, b))), [fnm(f_exp, ksum(a, b))],
       ML + "Matrix.exp_add_of_commute on A(x)I and I(x)B")
 lemma("pow_kron", [x, a, b], z3.Implies(z3.And(psd(a), psd(b)), fnm(f_pow(x), kron(a, b)) == kron(fnm(f_pow(x), a), fnm(f_pow(x), b))),
@@ -451,6 +483,31 @@ def all_axioms(groups=None):
     return [fm for (_, fm, _, g) in LEMMAS if g in groups]
 
 
+def relevant_axioms(formulas, groups=None):
+    """Cone of influence: a lemma can only ever be instantiated if all function symbols of one of its patterns occur in
+    the query or in the body of a lemma that can itself fire.  Lemmas outside this closure are dropped (sound: fewer
+    axioms), which keeps unrelated theories (matrix functions, determinants ...) from feeding E-matching."""
+    groups = set(groups or DEFAULT_GROUPS)
+    syms = set()
+    for fmla in formulas:
+        _syms_of(fmla, syms)
+    chosen = {}
+    changed = True
+    cands = [(nm, fm) for (nm, fm, _, g) in LEMMAS if g in groups]
+    while changed:
+        changed = False
+        for nm, fm in cands:
+            if nm in chosen:
+                continue
+            alts, body = LEMMA_SYMS[nm]
+            if any(a <= syms for a in alts):
+                chosen[nm] = fm
+                if not body <= syms:
+                    syms |= body
+                changed = True
+    return [chosen[nm] for nm, _ in cands if nm in chosen]
+
+
 def lemma_stats():
     ml = sum(1 for (_, _, p, _) in LEMMAS if p.startswith(ML))
     assumed = [(nm, p[len(AS):]) for (nm, _, p, _) in LEMMAS if p.startswith(AS)]
@@ -468,9 +525,12 @@ def hard_check(s, timeout_ms):
         return z3.unknown
 
 
+RLIMIT_PER_MS = 1000     # in-process budget is a deterministic resource count (honoured promptly, unlike `timeout`)
+
+
 def _solver(timeout_ms, mbqi=False):
     s = z3.Solver()
-    s.set("timeout", int(timeout_ms))
+    s.set("rlimit", int(min(2_000_000, max(50000, timeout_ms * RLIMIT_PER_MS))))
     s.set("smt.mbqi", bool(mbqi))
     s.set("smt.auto_config", False)
     return s
@@ -483,6 +543,8 @@ def _reason(s):
         return "interrupted"
 
 
+ESCALATE = [True]       # switched off by the runners for obligations that belong to a listed known finding
+ESCALATE_FACTOR = 4
 STATS = dict(z3=0, cvc5=0, z3_secs=0.0, cvc5_secs=0.0)
 CVC5 = "/usr/bin/cvc5"
 
@@ -541,7 +603,7 @@ def prove(hyps, goal, timeout_ms=8000, want_smt=False, groups=None, z3_ms=1500):
     """Returns dict(status in {'unsat','unknown','sat'}, backend, secs).  'unsat' = goal follows from hyps + lemmas.
     z3 in-process (E-matching only) first; its unknowns go to the z3 CLI and cvc5 as separate processes."""
     t0 = time.time()
-    ax = all_axioms(groups)
+    ax = relevant_axioms(list(hyps) + [goal], groups)
     s = _solver(z3_ms)
     s.add(*ax)
     s.add(*hyps)
@@ -559,7 +621,12 @@ def prove(hyps, goal, timeout_ms=8000, want_smt=False, groups=None, z3_ms=1500):
         out["model"] = str(s.model())[:2000]
         return out
     t1 = time.time()
-    ans, who = cli_check(s.to_smt2(), timeout_ms)
+    dump = s.to_smt2()
+    ans, who = cli_check(dump, timeout_ms)
+    if ans != "unsat" and ESCALATE[0]:
+        # a second, longer attempt so that a verdict does not flip when all cores are busy
+        ans, who2 = cli_check(dump, timeout_ms * ESCALATE_FACTOR)
+        who = who2 if ans == "unsat" else f"{who} | retry x{ESCALATE_FACTOR}: {who2}"
     STATS["cvc5"] += 1
     STATS["cvc5_secs"] += time.time() - t1
     out["secs"] = time.time() - t0
@@ -572,7 +639,7 @@ def prove(hyps, goal, timeout_ms=8000, want_smt=False, groups=None, z3_ms=1500):
 
 def implied(hyps, cond, timeout_ms=400, groups=None):
     """Three-valued: True if hyps |- cond, False if hyps |- not cond, None otherwise (fast E-matching only)."""
-    ax = all_axioms(groups)
+    ax = relevant_axioms(list(hyps) + [cond], groups)
     for want, fm in ((True, z3.Not(cond)), (False, cond)):
         s = _solver(timeout_ms)
         s.add(*ax)
